@@ -5,9 +5,11 @@
 
    Executable definitions only; proofs are in Proofs/C31.v.
 
-   Where the code deviates from the property there are two versions:
-     impl_mvh  = strings.ReplaceAll(addr, cleanedHost, backendHost)   (what dialRoute does)
-     spec_mvh  = replace the host part only (the first occurrence)    (what the property demands)
+   The virtual-host rewrite exists in three named versions:
+     impl_mvh     = strings.Replace(addr, cleanedHost, backendHost, 1)  (what dialRoute does since fix d2ccd45)
+     spec_mvh     = replace the host part only (the first occurrence)   (what the property demands; same function)
+     old_impl_mvh = strings.ReplaceAll(addr, cleanedHost, backendHost)  (the PRE-FIX code, kept only for the
+                    historical finding C31-1 and its refutation lemmas; not used by the judge's model)
    Everything else is shared; [lite_flow] is parameterised by the rewrite function.
 
    Standing assumptions of the model (stated again in meta/C31.json):
@@ -186,13 +188,18 @@ Definition go_replace_first (s old new : bytes) : bytes :=
 Definition mvh_applies (backend_host addr : bytes) : bool :=
   negb (equal_fold (clear_virtual_host addr) backend_host).
 
+(* the code as it is now: strings.Replace(handshake.ServerAddress, clearedHost, backendHost, 1) *)
 Definition impl_mvh (backend_host addr : bytes) : bytes :=
+  go_replace_first addr (clear_virtual_host addr) backend_host.
+
+(* PRE-FIX code (before d2ccd45): strings.ReplaceAll — historical, see finding C31-1 *)
+Definition old_impl_mvh (backend_host addr : bytes) : bytes :=
   go_replace_all addr (clear_virtual_host addr) backend_host.
 
 Definition spec_mvh (backend_host addr : bytes) : bytes :=
   go_replace_first addr (clear_virtual_host addr) backend_host.
 
-(* recorded finding C31-1: the inputs on which ReplaceAll can differ from replacing the host part:
+(* finding C31-1 (fixed): the inputs on which the pre-fix ReplaceAll can differ from replacing the host part:
    the cleaned host is empty, or its text occurs again behind the host part *)
 Definition mvh_trigger (backend_host addr : bytes) : bool :=
   mvh_applies backend_host addr &&
@@ -457,10 +464,9 @@ Definition frame (p : bytes) : bytes := enc (len p) ++ p.
 Definition is_status_request (q : bytes) : bool :=
   match dec_varint q with Some (id, _) => id =? 0 | None => false end.
 
-(* match.go: the "*" host pattern is the regexp ^(.*?)$ applied to the lower-cased cleaned host;
-   "." does not match a newline, everything else (invalid UTF-8 included) matches *)
-Definition star_route_matches (addr : bytes) : bool :=
-  negb (existsb (N.eqb 10) (clear_virtual_host addr)).
+(* match.go: the "*" host pattern is the regexp (?s)^(.*?)$ applied to the lower-cased cleaned host;
+   since fix 0f43e55 "." matches a line feed too, so "*" matches every host (invalid UTF-8 included)
+   and route matching puts no condition on the address. *)
 
 (* What the read loop and the handshake handler make of the client byte stream:
    nothing that reaches a backend; a login/transfer to forward (payload p of the handshake frame,
@@ -478,8 +484,7 @@ Definition classify (cs : bytes) : request :=
     match dec_handshake_payload p with
     | None => ReqNone
     | Some (h, _) =>
-      if negb (star_route_matches (hs_addr h)) then ReqNone
-      else if (hs_next h =? 2) || (hs_next h =? 3) then ReqForward p h rest
+      if (hs_next h =? 2) || (hs_next h =? 3) then ReqForward p h rest
       else if hs_next h =? 1 then
         match next_packet max_retries rest with
         | Some (q, _) => if is_status_request q then ReqStatus p h q else ReqNone
